@@ -1,6 +1,6 @@
 (* Averager (C20): the stored (total, count) is exactly (sum, number) of the adds completed since
    the last pop, for every number of clients, every program of adds/gets/pops and every schedule. *)
-From DC Require Import DCPrelude RecipesBase Gen_Recipes Recipes RecipesFacts.
+From DC Require Import DCPrelude RecipesBase Gen_Recipes Recipes.
 
 (* ---- bridge lemmas ---- *)
 Lemma bridge_avg_retry : avg_add_retry = true /\ avg_get_retry = true /\ avg_pop_retry = true.
